@@ -42,7 +42,9 @@ func main() {
 	case "C16":
 		rc = runC16(r, *n, w)
 	case "C17":
-		rc = runC17(r, *n, w)
+		rc = runC17(r, *n, w, false)
+	case "C08":
+		rc = runC17(r, *n, w, true)
 	default:
 		fmt.Fprintln(os.Stderr, "unknown -prop", *prop)
 		rc = 2
